@@ -499,6 +499,12 @@ pub fn make_input<T: Real>(spec: &InputSpec, n: usize, chunks: usize) -> Vec<Com
     // per-type exponent budgets: f32 -> +-20 per element, 2^40 global; f64 -> +-200, 2^400
     let (wide_exp, scale_exp) = if T::MAX_EXP < 200 { (20, 40) } else { (200, 400) };
     let mut out = Vec::with_capacity(n * chunks);
+    if let Some(e) = xscale_exp::<T>(&spec.family, spec.seed, n) {
+        // an ordinary dense vector times an exact power of two near the bottom / the top of the NORMAL range
+        let base = make_input::<T>(&xscale_base(spec), n, chunks);
+        let sc = (e as f64).exp2();
+        return base.iter().map(|c| Complex { re: T::of_f64(c.re.to_f64() * sc), im: T::of_f64(c.im.to_f64() * sc) }).collect();
+    }
     for c in 0..chunks {
         if spec.family == "silence_mix" {
             // alternating silent (all-zero) and dense chunks; which parity is silent depends on the seed
@@ -520,6 +526,27 @@ pub fn make_input<T: Real>(spec: &InputSpec, n: usize, chunks: usize) -> Vec<Com
         }
     }
     out
+}
+
+/// Extreme-scale families ("xscale_tiny", "xscale_huge"): the power-of-two exponent applied to an ordinary dense vector.
+/// tiny: far below 1 but with every intermediate product still a NORMAL number (f32: 2^-60..2^-80, f64: 2^-300..2^-900);
+/// huge: MAX_EXP - 24 - 1.5*log2(n), i.e. 2^24 of head-room above the largest intermediate (n^1.5 * max|x|) any of the
+/// algorithms forms. The numeric check compares (output * 2^-e) with the reference DFT of the unscaled vector, which is
+/// exact (power-of-two scaling) and keeps every norm in the harness inside the f64 range.
+pub fn xscale_exp<T: Real>(family: &str, seed: u64, n: usize) -> Option<i32> {
+    let f32like = T::MAX_EXP < 200;
+    match family {
+        "xscale_tiny" => Some(if f32like { [-60, -72, -80][(seed % 3) as usize] } else { [-300, -600, -900][(seed % 3) as usize] }),
+        "xscale_huge" => {
+            let l = (1.5 * (n.max(2) as f64).log2()).ceil() as i32;
+            Some(T::MAX_EXP - 24 - l - (seed % 3) as i32 * 10)
+        }
+        _ => None,
+    }
+}
+/// the unscaled vector behind an extreme-scale input
+pub fn xscale_base(spec: &InputSpec) -> InputSpec {
+    InputSpec::fam(if spec.seed % 2 == 0 { "gaussish" } else { "uniform" }, spec.seed)
 }
 
 pub fn to_pairs<T: Real>(v: &[Complex<T>]) -> Vec<(f64, f64)> {
